@@ -29,7 +29,7 @@ C14(r) ==
   IF r.err # "" THEN [no_exception |-> FALSE] ELSE
   [ no_exception |-> TRUE,
     in_domain    |-> All(r, LAMBDA rk : WellFormedRows(Rows(rk))),
-    input_faithful |-> All(r, LAMBDA rk : RowsFaithful(Rows(rk), Range(rk.file))),
+    input_faithful |-> All(r, LAMBDA rk : RowsFaithful(Rows(rk), Range(rk.file)) /\ LinksFaithful(Rows(rk), Range(rk.file))),
     q_rows       |-> All(r, LAMBDA rk : QRowsOK(rk)),
     q_values     |-> All(r, LAMBDA rk : SeriesMatches(rk.q, QueueItems(Rows(rk)))),
     q_ordered    |-> All(r, LAMBDA rk : SeriesOrdered(rk.q)),
@@ -49,7 +49,7 @@ C15(r) ==
   IF r.err # "" THEN [no_exception |-> FALSE] ELSE
   [ no_exception |-> TRUE,
     in_domain    |-> All(r, LAMBDA rk : WellFormedRows(Rows(rk))),
-    input_faithful |-> All(r, LAMBDA rk : RowsFaithful(Rows(rk), Range(rk.file))),
+    input_faithful |-> All(r, LAMBDA rk : RowsFaithful(Rows(rk), Range(rk.file)) /\ LinksFaithful(Rows(rk), Range(rk.file))),
     rows_required|-> All(r, LAMBDA rk : RequiredStats(Rows(rk), r.mem) \subseteq Range(rk.stats)),
     rows_only    |-> All(r, LAMBDA rk : Range(rk.stats) \subseteq RequiredStats(Rows(rk), r.mem) \cup OptionalStats(Rows(rk))),
     rows_once    |-> All(r, LAMBDA rk : Cardinality({ rk.stats[j].corr : j \in DOMAIN rk.stats }) = Len(rk.stats)) ]
@@ -63,7 +63,7 @@ C06(r) ==
   IF r.err # "" THEN [no_exception |-> FALSE] ELSE
   [ no_exception |-> TRUE,
     in_domain    |-> All(r, LAMBDA rk : WellFormedRows(Rows(rk)) /\ StrictSerial(Rows(rk))),
-    input_faithful |-> All(r, LAMBDA rk : RowsFaithful(Rows(rk), Range(rk.file))),
+    input_faithful |-> All(r, LAMBDA rk : RowsFaithful(Rows(rk), Range(rk.file)) /\ LinksFaithful(Rows(rk), Range(rk.file))),
     idle_by_cat  |-> All(r, LAMBDA rk : \A s \in StreamsOf(rk) : \A c \in Cats :
                            Reported(rk, s, c) = IdleSum(Rows(rk), s, c, r.thr)),
     only_streams |-> All(r, LAMBDA rk : \A j \in DOMAIN rk.out : rk.out[j].stream \in StreamsOf(rk) /\ rk.out[j].cat \in Cats),
